@@ -50,6 +50,23 @@ def subst(e: ast.AST, env: dict[str, ast.AST]) -> ast.AST:
     return ast.fix_missing_locations(_Sub(env).visit(copy.deepcopy(e)))
 
 
+class _FoldSpec(ast.NodeTransformer):
+    """f'{v:.{9}g}' -> f'{v:.9g}': a constant substituted into a nested format spec becomes literal text."""
+
+    def visit_JoinedStr(self, node: ast.JoinedStr):
+        self.generic_visit(node)
+        vals: list[ast.AST] = []
+        for v in node.values:
+            if isinstance(v, ast.FormattedValue) and v.conversion == -1 and v.format_spec is None and isinstance(v.value, ast.Constant) and isinstance(v.value.value, (int, str)) and not isinstance(v.value.value, bool):
+                v = ast.Constant(value=str(v.value.value))
+            if isinstance(v, ast.Constant) and vals and isinstance(vals[-1], ast.Constant):
+                vals[-1] = ast.Constant(value=str(vals[-1].value) + str(v.value))
+            else:
+                vals.append(v)
+        node.values = vals
+        return node
+
+
 @dataclass
 class Path:
     facts: list[tuple[ast.AST, bool]] = field(default_factory=list)
@@ -76,13 +93,13 @@ class Path:
     def res(self, e: ast.AST, k: int | None = None) -> str:
         """Text of `e` with the locals replaced by what they stand for before effect k (default: at the end)."""
         env = self.env if k is None else self.envs[k]
-        return unparse(subst(e, env))
+        return unparse(_FoldSpec().visit(subst(e, env)))
 
     def nfacts(self) -> set[tuple[str, bool]]:
         """Normalised resolved facts (astutil.norm_fact)."""
         from .astutil import norm_fact
 
-        return {norm_fact(t, p) for t, p in self.rfacts}
+        return {norm_fact(_FoldSpec().visit(copy.deepcopy(t)), p) for t, p in self.rfacts}
 
     def feasible(self) -> bool:
         """False when two resolved facts contradict each other (same atom, both polarities): the path tests the same
@@ -230,6 +247,13 @@ def _stmt(st: ast.stmt, p: Path) -> list[Path]:
         for pol, v in ((True, st.value.body), (False, st.value.orelse)):
             b = _branch(p, st.value.test, pol)
             out.extend(_stmt(ast.copy_location(ast.Return(value=v), st), b))
+        return out
+    if isinstance(st, ast.Assign) and len(st.targets) == 1 and isinstance(st.targets[0], ast.Name) and isinstance(st.value, ast.IfExp):
+        # `x = a if c else b`  ==  `if c: x = a` / `else: x = b`
+        out = []
+        for pol, v in ((True, st.value.body), (False, st.value.orelse)):
+            b = _branch(p, st.value.test, pol)
+            out.extend(_stmt(ast.copy_location(ast.Assign(targets=st.targets, value=v), st), b))
         return out
     q = p.fork()
     if isinstance(st, ast.Return):
